@@ -471,6 +471,15 @@ class OpaquePubKey(PubKey):  # pragma: no cover
     def __bytearray__(self):
         return self.data
 
+    def __len__(self):
+        # the key material is these octets: the fingerprint is computed over publen() of them
+        return len(self.data)
+
+    def __copy__(self):
+        pk = self.__class__()
+        pk.data = bytearray(self.data)
+        return pk
+
     def parse(self, packet):
         ##TODO: this needs to be length-bounded to the end of the packet
         self.data = packet
